@@ -1,4 +1,5 @@
 import Obao.Proofs.RequestAuthz
+import Obao.Proofs.AuthzNamespace
 /-!
 C02 — "No backend effect or data without a live token and an allowing policy".
 
@@ -291,5 +292,32 @@ example : Unshadowed (SpecialTable.parse [cs "unauth/*", cs "login", cs "root/*"
   rcases hp with rfl | rfl <;> subst he <;> decide
 /-- mount-boundary form: `rec` is routed to `rec/` with the empty relative path -/
 example : (exState.route .read (cs "rec")).2.2 = [Ev.route (cs "rec/") .read []] := by decide
+
+/-! ### namespaces: "…whose policies allow that operation on that NAMESPACE-QUALIFIED path" -/
+
+/-- **authorisation_namespace_invariant.** A policy of namespace `ns` stores its rules under `ns ++ path`, a request
+made in `ns` is decided at `ns ++ path`. For every rule list, operation and namespace-relative request path (non-empty,
+no leading slash) and every namespace path (non-empty, no leading slash — `"team/"`, `"team/sub/"`), the policy check
+is the one the un-prefixed rules give on the un-prefixed path: the pipeline theorems above, stated for the root
+namespace, hold verbatim inside every namespace; the correspondence runs every third script inside a child namespace
+(and every third with the policies in the root namespace naming the child's paths) against the SAME model. -/
+theorem authorisation_namespace_invariant (ns : Path) (rules : List Rule) (op : Op) (p : Path) (rootPrivs : Bool)
+    (hns : ns ≠ []) (hns0 : ns.head? ≠ some '/') (hp : p ≠ []) (hp0 : p.head? ≠ some '/') :
+    policyChecks false (rules.map (Rule.inNs ns)) op (ns ++ p) rootPrivs = policyChecks false rules op p rootPrivs := by
+  unfold policyChecks aclAllowOperation
+  rw [selectPerms_inNs ns rules op p hns hns0 hp hp0]
+
+/-- live: in `team/` the rule `team/secret/*` decides `secret/a` exactly as `secret/*` decides it at the root; a rule of
+ANOTHER namespace (`other/secret/*`) grants nothing there -/
+example : policyChecks false ([Rule.parse (cs "secret/*") { Caps.none with read := true }].map (Rule.inNs (cs "team/")))
+            .read (cs "team/" ++ cs "secret/a") false = true
+        ∧ policyChecks false [Rule.parse (cs "other/secret/*") { Caps.none with read := true }]
+            .read (cs "team/" ++ cs "secret/a") false = false := by decide
+
+/-- the leading-slash hypothesis is necessary (what the correspondence compares only up to refusal class, `reqns`):
+at the root `/secret/a` is stripped to `secret/a` and allowed, in `team/` the ACL sees `team//secret/a` -/
+example : policyChecks false [Rule.parse (cs "secret/*") { Caps.none with read := true }] .read (cs "/secret/a") false = true
+        ∧ policyChecks false ([Rule.parse (cs "secret/*") { Caps.none with read := true }].map (Rule.inNs (cs "team/")))
+            .read (cs "team/" ++ cs "/secret/a") false = false := by decide
 
 end C02
